@@ -45,6 +45,7 @@ def run(ck, rng):
     docs += long_line_docs()
     # nodes with 15..257 children (sizes at which lookup structures change), with repeated names
     docs += [spell(items, plain_spelling(items)) for items in very_wide_forests()]
+    docs += [spell(items, deep_spelling(items)) for items in deep_forests(depths=(64, 65, 66, 130))]
     cases, meta = [], []
     for doc in docs:
         ops = OPS if (ck.tier == "thorough" or len(doc) > 60000 or rng.random() < 0.15) else rng.sample(OPS, 4)
